@@ -7,6 +7,7 @@ import RbV.Lemmas.QGramExact
 import RbV.Lemmas.QGramMatches
 import RbV.Lemmas.QGramIndex
 import RbV.Lemmas.QGramExactModel
+import RbV.Lemmas.KChainFwd
 /-!
 # C19 — k-mer / q-gram indexing and sparse chaining are exact
 
@@ -347,6 +348,61 @@ theorem lcskpp_accept_iff (ms : List M) (k : Nat) (hk : 0 < k) (hs : ms.Pairwise
       rw [List.getD_eq_getElem?_getD, List.getElem?_eq_getElem hlt]
       exact List.getElem_mem hlt)
     omega
+
+/-- **the recurrence behind `lcskpp`'s `dp_vector`** (`k` + best finished non-overlapping predecessor, or diagonal
+predecessor + 1): evaluated in list order it gives, for every match, the best score of a valid chain *ending* at that
+match — no chain ending there scores more, and one scores exactly that. -/
+theorem dp_cell_is_best_chain_ending (ms : List M) (k : Nat) (hk : 0 < k) (hs : ms.Pairwise (fun a b => a.1 ≤ b.1))
+    (m : M) (v : Nat) (h : (m, v) ∈ tableR k ms.reverse) :
+    (∀ c, Chain k (c ++ [m]) → (∀ e ∈ c, e ∈ ms) → score k (c ++ [m]) ≤ v) ∧
+    ∃ c, Chain k (c ++ [m]) ∧ (∀ e ∈ c, e ∈ ms) ∧ score k (c ++ [m]) = v := by
+  have hs' : ms.reverse.Pairwise (fun a b => b.1 ≤ a.1) := List.pairwise_reverse.mpr hs
+  constructor
+  · intro c hc hsub
+    have h1 : RChain k (m :: c.reverse) := by
+      rw [rchain_iff]; simpa using hc
+    have := tableR_upper hk ms.reverse hs' m v h c.reverse h1 (fun e he => by simpa using hsub e (by simpa using he))
+    rw [rscore_eq] at this
+    simpa using this
+  · obtain ⟨rc, h1, h2, h3⟩ := tableR_attained hk ms.reverse m v h
+    refine ⟨rc.reverse, ?_, ?_, ?_⟩
+    · rw [rchain_iff] at h1; simpa using h1
+    · intro e he
+      have := h2 e (by simp at he ⊢; right; exact he)
+      simpa using this
+    · rw [rscore_eq] at h3; simpa using h3
+
+/-- … and the best cell (`best_dp`) is the LCSk++ optimum -/
+theorem dpScores_max_eq_opt (ms : List M) (k : Nat) (hk : 0 < k) (hs : ms.Pairwise (fun a b => a.1 ≤ b.1)) :
+    max0 (dpScores ms k) = lcskDP ms k := by
+  apply (lcskDP_eq_opt ms k hk hs _).mp
+  have hmem : ∀ v, v ∈ dpScores ms k ↔ ∃ m, (m, v) ∈ tableR k ms.reverse := by
+    intro v
+    simp only [dpScores, List.mem_reverse, List.mem_map]
+    constructor
+    · rintro ⟨⟨m, v'⟩, hm, rfl⟩; exact ⟨m, hm⟩
+    · rintro ⟨m, hm⟩; exact ⟨(m, v), hm, rfl⟩
+  constructor
+  · intro c hc hsub
+    rcases List.eq_nil_or_concat c with rfl | ⟨c', m, rfl⟩
+    · simp [score]
+    · rw [List.concat_eq_append] at hc hsub ⊢
+      have hm : m ∈ ms.reverse := by simpa using hsub m (by simp)
+      obtain ⟨v, hv⟩ := exists_entryR (k := k) hm
+      have h1 := (dp_cell_is_best_chain_ending ms k hk hs m v hv).1 c' hc (fun e he => hsub e (by simp [he]))
+      have h2 : v ≤ max0 (dpScores ms k) := le_max0_of_mem ((hmem v).mpr ⟨m, hv⟩)
+      omega
+  · rcases max0_zero_or_mem (dpScores ms k) with h0 | hm
+    · exact ⟨[], trivial, by simp, by simp [score, h0]⟩
+    · obtain ⟨m, hmv⟩ := (hmem _).mp hm
+      obtain ⟨c, h1, h2, h3⟩ := (dp_cell_is_best_chain_ending ms k hk hs m _ hmv).2
+      refine ⟨c ++ [m], h1, ?_, h3⟩
+      intro e he
+      rcases List.mem_append.mp he with h' | h'
+      · exact h2 e h'
+      · simp at h'; rw [h']; have := entry_memR hmv; simpa using this
+
+example : dpScores [(0, 0), (1, 1), (2, 2), (5, 5), (6, 9)] 3 = [3, 4, 5, 8, 8] := by decide
 
 /-- the score counts `k` for the first match and every non-overlapping step and `1` for a diagonal continuation -/
 theorem score_counts (k : Nat) (a b : M) (r : List M) :
